@@ -442,6 +442,9 @@ fn deserialize(f: &str) -> Result<(), String> {
         "bincode bytes -> Locked<HeapByteArray<32>>" => e(bincode::deserialize::<LK32>(&bincode::serialize(&serde_bytes_like(&arr)).unwrap())),
         "json seq -> LockedBytes" => e(serde_json::from_str::<LockedBytes>(&json_seq(&long))),
         "bincode bytes -> LockedBytes" => e(bincode::deserialize::<LockedBytes>(&bincode::serialize(&serde_bytes_like(&long)).unwrap())),
+        // a deserializer that announces the length of the sequence (serde's own SeqDeserializer; CBOR and MessagePack arrays do too)
+        "hinted seq -> Locked<HeapByteArray<32>>" => { use serde::Deserialize; let d = serde::de::value::SeqDeserializer::<_, serde::de::value::Error>::new(arr.iter().copied()); e(LK32::deserialize(d)) }
+        "hinted seq -> LockedBytes" => { use serde::Deserialize; let d = serde::de::value::SeqDeserializer::<_, serde::de::value::Error>::new(long.iter().copied()); e(LockedBytes::deserialize(d)) }
         "json -> LockedKeyPair" => { let j = format!("{{\"public_key\":{},\"secret_key\":{}}}", json_seq(&arr), json_seq(&arr)); e(serde_json::from_str::<LKP>(&j)) }
         "bincode -> LockedKeyPair" => { let mut b = bincode::serialize(&serde_bytes_like(&arr)).unwrap(); let b2 = b.clone(); b.extend(b2); e(bincode::deserialize::<LKP>(&b)) }
         _ => Err(format!("HARNESS: unknown decoder {}", f)),
